@@ -3,6 +3,8 @@ import FeatModel.Lemmas.C14Basic
 import FeatModel.Lemmas.C14Tables
 import FeatModel.Lemmas.C14Names
 import FeatModel.Lemmas.C14Tensor
+import FeatModel.Lemmas.C14Rat
+import FeatModel.Lemmas.C14Subdiv
 /-!
 # C14 — every named cubature rule is exact up to its nominal polynomial degree; unknown names are refused
 
@@ -158,10 +160,62 @@ theorem C14.tensor_moments_factorise (t : DyTable) (hwf : t.wf 1 = true) (dim : 
     exact smom_scalarCoords t.w t.x k hp
   · rfl
 
-/-- Refinement keeps degree 0 for every number of refinements: the weight sum is preserved (the child factors of
-    every shape sum to one).  Only this part of "refine:* keeps the degree of its base rule" is proved; the full
-    statement is `C14.RefineKeepsDegree` and is covered by the correspondence and oracle runs. -/
-theorem C14.refine_keeps_degree_partial (s : Shape) (t : DyTable) (k : Nat) :
+/-- The `Rat` bridge: the cleared-denominator integer inequality `MomentOK` used by all kernel-evaluated checks IS
+    the statement `|Σ_i w_i x_i^e − ∫ x^e| ≤ 2^-40` over the rationals (`momentQ` = the rule's moment, `refIntQ` =
+    the exact integral over the reference simplex / cube, `tolQ = 2^-40`: ONE tolerance for every rule and degree). -/
+theorem C14.momentOK_iff_rat (t : DyTable) (s : Bool) (e : List Nat) :
+    t.MomentOK s e ↔ |t.momentQ e - refIntQ s e| ≤ tolQ := momentOK_iff t s e
+
+/-- A over `Rat`, as the property states it: every generated rule integrates every monomial up to its nominal
+    degree with error at most `2^-40` (uniform tolerance; the tables are the rounded `double`s of the code). -/
+theorem C14.tables_exact_rat (s : Shape) (t : DyTable) (ht : t ∈ tablesOf s) :
+    ∃ d, nominal t.fac t.n = some d ∧
+      ∀ e : List Nat, e.length = s.dim → esum e ≤ d → |t.momentQ e - refIntQ s.simplex e| ≤ 1 / 2 ^ 40 := by
+  obtain ⟨d, hd, hx⟩ := C14.tables_exact s t ht
+  exact ⟨d, hd, (exactTo_iff t s.simplex s.dim d).1 hx⟩
+
+/-- Refinement keeps the degree (exact arithmetic, EVERY rule of the shape, EVERY number k of refinements): a rule
+    that integrates all monomials up to degree `d` exactly is still exact up to `d` after `refine*k` — for `d` up to
+    the degree to which the subdivision identity `∫ p = Σ_children |det T_c| ∫ p∘T_c` of the shape's refinery has
+    been kernel-checked (`refineDegreeBound`: 39 for lines, 20 for triangles, 8 for tetrahedra = the maximal nominal
+    degrees of these shapes; 16 for squares, 8 for cubes). -/
+theorem C14.refine_keeps_degree (s : Shape) (t : DyTable) (d k : Nat) (hd : d ≤ refineDegreeBound s)
+    (ht : t.wf s.dim = true)
+    (H : ∀ e : List Nat, e.length = s.dim → esum e ≤ d → t.momentQ e = refIntQ s.simplex e) :
+    ∀ e : List Nat, e.length = s.dim → esum e ≤ d →
+      (t.refine (Gen.refMapsOf s) k).momentQ e = refIntQ s.simplex e := by
+  have h0 : t.ExactQ s.simplex s.dim d 0 := fun e hl hs => by simp [H e hl hs]
+  have := refine_error s t d 0 hd ht (le_refl _) h0 k
+  intro e hl hs
+  have h := this e hl hs
+  rw [mul_zero] at h
+  have := abs_nonneg ((t.refine (Gen.refMapsOf s) k).momentQ e - refIntQ s.simplex e)
+  have h2 : |(t.refine (Gen.refMapsOf s) k).momentQ e - refIntQ s.simplex e| = 0 := le_antisymm h this
+  exact sub_eq_zero.1 (abs_eq_zero.1 h2)
+
+/-- ε-version with an explicit constant: moment errors `≤ ε` up to degree `d` become at most `G^k · ε` after k
+    refinements, with `G = refineGrowth s = 1` for lines, triangles, squares and cubes (the error does not grow) and
+    `G = 39` for tetrahedra (coefficient-wise bound; the tetrahedron child maps have rows of absolute sum 7/4). -/
+theorem C14.refine_keeps_degree_eps (s : Shape) (t : DyTable) (d k : Nat) (ε : Rat) (hd : d ≤ refineDegreeBound s)
+    (ht : t.wf s.dim = true) (hε : 0 ≤ ε)
+    (H : ∀ e : List Nat, e.length = s.dim → esum e ≤ d → |t.momentQ e - refIntQ s.simplex e| ≤ ε) :
+    ∀ e : List Nat, e.length = s.dim → esum e ≤ d →
+      |(t.refine (Gen.refMapsOf s) k).momentQ e - refIntQ s.simplex e| ≤ (refineGrowth s : Rat) ^ k * ε :=
+  refine_error s t d ε hd ht hε H k
+
+/-- the refined generated tables: `refine*k` of every generated rule whose nominal degree is within the checked
+    bound integrates up to that degree with error at most `G^k · 2^-40` (G = 1 except for tetrahedra) -/
+theorem C14.refined_tables_exact (s : Shape) (t : DyTable) (ht : t ∈ tablesOf s) (k : Nat) :
+    ∃ d, nominal t.fac t.n = some d ∧ (d ≤ refineDegreeBound s →
+      ∀ e : List Nat, e.length = s.dim → esum e ≤ d →
+        |(t.refine (Gen.refMapsOf s) k).momentQ e - refIntQ s.simplex e| ≤ (refineGrowth s : Rat) ^ k * tolQ) := by
+  obtain ⟨d, hd, hx⟩ := C14.tables_exact s t ht
+  refine ⟨d, hd, fun hb => ?_⟩
+  exact refine_error s t d tolQ hb (C14.tables_wellformed s t ht).1 (by unfold tolQ; positivity)
+    ((exactTo_iff t s.simplex s.dim d).1 hx) k
+
+/-- Refinement preserves the weight sum exactly, for every shape, rule and k (no degree bound). -/
+theorem C14.refine_keeps_weight_sum (s : Shape) (t : DyTable) (k : Nat) :
     isum (t.refine (Gen.refMapsOf s) k).w = 2 ^ ((Gen.refMapsOf s).ce * k) * isum t.w ∧
     (t.refine (Gen.refMapsOf s) k).ew = t.ew + (Gen.refMapsOf s).ce * k := by
   have hc : isum ((Gen.refMapsOf s).maps.map (·.c)) = 2 ^ (Gen.refMapsOf s).ce := by
@@ -177,15 +231,12 @@ theorem C14.refine_keeps_degree_partial (s : Shape) (t : DyTable) (k : Nat) :
     · simp only [DyTable.refine, DyTable.refine1, ih2]
       rw [Nat.mul_succ]; omega
 
-/-- the full statement for refinements (not proved): exactness (tolerance 0) up to degree `d` survives any number
-    of refinements -/
-def C14.RefineKeepsDegree : Prop :=
+/-- what is NOT proved: the refinement theorem beyond `refineDegreeBound` (squares: degrees 17..39, cubes: 9..39;
+    covered by the `exactq` correspondence stream and the oracle only) -/
+def C14.RefineKeepsDegreeUnbounded : Prop :=
   ∀ (s : Shape) (t : DyTable) (d k : Nat), t.wf s.dim = true →
-    (∀ e : List Nat, e.length = s.dim → esum e ≤ d →
-      t.momentNum e * (refDen s.simplex e : Int) = (refNum s.simplex e : Int) * (2 ^ t.momentExp e : Nat)) →
-    ∀ e : List Nat, e.length = s.dim → esum e ≤ d →
-      (t.refine (Gen.refMapsOf s) k).momentNum e * (refDen s.simplex e : Int) =
-        (refNum s.simplex e : Int) * (2 ^ (t.refine (Gen.refMapsOf s) k).momentExp e : Nat)
+    (∀ e : List Nat, e.length = s.dim → esum e ≤ d → t.momentQ e = refIntQ s.simplex e) →
+    ∀ e : List Nat, e.length = s.dim → esum e ≤ d → (t.refine (Gen.refMapsOf s) k).momentQ e = refIntQ s.simplex e
 
 /-- hypotheses are satisfiable by non-trivial values: the 79-point rule `dunavant:20` is a generated table -/
 example : ∃ t ∈ tablesOf .s2, t.fac = "dunavant".toList ∧ t.n = 20 ∧ t.w.length = 79 := by decide +kernel
